@@ -8,6 +8,7 @@ package storage
 import (
 	"os"
 	"path"
+	"sync"
 	"time"
 
 	log "github.com/sirupsen/logrus"
@@ -25,6 +26,10 @@ const (
 // Store implements a storage for Bundles together with meta data.
 type Store struct {
 	bh *badgerhold.Store
+
+	// writeMutex serialises Push, Update and Delete: Push is a read-modify-write of a BundleItem's
+	// Parts, and concurrent badgerhold writes abort each other with a transaction conflict.
+	writeMutex sync.Mutex
 
 	badgerDir string
 	bundleDir string
@@ -70,6 +75,9 @@ func (s *Store) Close() error {
 
 // Push a new/received Bundle to the Store.
 func (s *Store) Push(b bpv7.Bundle) error {
+	s.writeMutex.Lock()
+	defer s.writeMutex.Unlock()
+
 	bi := newBundleItem(b, s.bundleDir)
 
 	if biStore, err := s.QueryId(b.ID()); err != nil {
@@ -130,6 +138,9 @@ func (s *Store) Push(b bpv7.Bundle) error {
 
 // Update an existing BundleItem.
 func (s *Store) Update(bi BundleItem) error {
+	s.writeMutex.Lock()
+	defer s.writeMutex.Unlock()
+
 	log.WithFields(log.Fields{
 		"bundle": bi.Id,
 	}).Debug("Store updates BundleItem")
@@ -139,6 +150,9 @@ func (s *Store) Update(bi BundleItem) error {
 
 // Delete a BundleItem, represented by the "scrubbed" BundleID.
 func (s *Store) Delete(bid bpv7.BundleID) error {
+	s.writeMutex.Lock()
+	defer s.writeMutex.Unlock()
+
 	if bi, err := s.QueryId(bid); err == nil {
 		log.WithFields(log.Fields{
 			"bundle": bid,
